@@ -240,3 +240,6 @@ func UFStub(name string) interface{} { return native3().Recorder("uf:" + name) }
 func AssumeLoopBound(fn string, n int) {}
 
 // QIsInt, DecPlain etc. are defined in native.go.
+
+// StrLess is the byte-wise order of strings (the order of ORM string keys).
+func StrLess(a, b string) bool { return a < b }
